@@ -220,6 +220,17 @@ Proof.
   - split; [|exact I2]. intros n m. rewrite (I1 n m), app_nil_r, <- in_rev. tauto.
 Qed.
 
+Lemma forallb_ext_in' : forall {A} (f f' : A -> bool) l, (forall x, In x l -> f x = f' x) -> forallb f l = forallb f' l.
+Proof.
+  intros A f f'. induction l as [|a t IH]; intros H; [reflexivity|]. simpl.
+  rewrite (H a (or_introl eq_refl)), IH; [reflexivity|]. intros x Hx. apply H. right. exact Hx.
+Qed.
+Lemma existsb_ext_in' : forall {A} (f f' : A -> bool) l, (forall x, In x l -> f x = f' x) -> existsb f l = existsb f' l.
+Proof.
+  intros A f f'. induction l as [|a t IH]; intros H; [reflexivity|]. simpl.
+  rewrite (H a (or_introl eq_refl)), IH; [reflexivity|]. intros x Hx. apply H. right. exact Hx.
+Qed.
+
 (* ---------------------------------------------------------------- the bridge *)
 Section Bridge.
 Variable g : graph.
@@ -236,7 +247,8 @@ Qed.
 Lemma n_nodes_hist : n_nodes g = Reach.nodes (Reach.run h).
 Proof.
   destruct (ReachProofs.run_Inv h Hwf) as [_ Hn]. destruct (inc_of_hist_spec h Hwf) as [_ Hl].
-  unfold n_nodes. rewrite <- (map_length n_incoming), Hbuilt, Hl, Hn. reflexivity.
+  unfold n_nodes. rewrite <- (map_length n_incoming (g_nodes g)).
+  unfold built_by in Hbuilt. rewrite Hbuilt. exact (eq_trans Hl (eq_sym Hn)).
 Qed.
 
 Lemma edges_in_range : forall a b, In (a, b) (Reach.edges h) -> a < n_nodes g /\ b < n_nodes g.
@@ -277,8 +289,8 @@ Proof.
                   ltac:(rewrite <- n_nodes_hist; exact Hw) ltac:(rewrite <- n_nodes_hist; exact Ht)).
   rewrite breach_rtc in H1.
   destruct (smem w (back_reach g this)); destruct (Reach.is_reachable (Reach.run h) w this); try reflexivity.
-  - apply H2. apply H1. reflexivity.
-  - symmetry. apply H1. apply H2. reflexivity.
+  - symmetry. apply (proj2 H2). apply (proj1 H1). reflexivity.
+  - apply (proj2 H1). apply (proj1 H2). reflexivity.
 Qed.
 
 (* CFGNode::CanHaveCombination, the C++ loop, over the bit matrix *)
@@ -291,7 +303,7 @@ Theorem can_have_combination_bit_matrix_lemma : forall attrs this,
   can_have_combination g attrs this = can_have_combination_matrix attrs this.
 Proof.
   intros attrs this Ht Ho. unfold can_have_combination, can_have_combination_matrix.
-  apply forallb_ext_in. intros b Hb. apply existsb_ext_in. intros o Hin.
+  apply forallb_ext_in'. intros b Hb. apply existsb_ext_in'. intros o Hin.
   apply back_reach_is_bit_matrix; [exact Ht | eapply Ho; eauto].
 Qed.
 End Bridge.
